@@ -241,6 +241,11 @@ func (o *objectGoReflect) elemToValue(ev reflect.Value) (Value, reflectValueWrap
 		return _null, nil
 	}
 
+	if ev.Kind() == reflect.Ptr {
+		// a pointer is a value: the wrapper keeps referring to the pointee, not to the slot it was read from
+		ev = reflect.ValueOf(ev.Interface())
+	}
+
 	return o.val.runtime.toValue(ev.Interface(), ev), nil
 }
 
